@@ -417,7 +417,7 @@ func (f *fsys) exec(o *op, st *vh.Stats) (string, error) {
 			nacts = 1 + f.rng.Intn(7)
 		}
 		var seen []string
-		grew := false
+		grew, low := false, size0
 		observe := func(what string) error { // File.node as the DAG holds it, after a Flush / the Close
 			nd, err := fi.GetNode()
 			if err != nil {
@@ -523,8 +523,13 @@ func (f *fsys) exec(o *op, st *vh.Stats) (string, error) {
 					afterFlush = true
 				}
 			}()
-			if sz, err := fd.Size(); err == nil && sz > size0 {
-				grew = true
+			// "the history grows the file": above the smallest size the descriptor has had so far
+			if sz, err := fd.Size(); err == nil {
+				if sz > low {
+					grew = true
+				} else {
+					low = sz
+				}
 			}
 			if aerr != nil && inlineLeaf && grew {
 				f.growGap = true // cut short as C19-4
